@@ -89,6 +89,15 @@ pub fn run_schedule<R: Send, F>(k: usize, schedule: &[u8], body: F) -> Result<Ve
 where
     F: Fn(u8, usize) -> R + Sync,
 {
+    run_schedule_with(k, schedule, |_| (), |tid, step, ()| body(tid, step))
+}
+
+/// As [`run_schedule`], with a per-thread state that is created on, and never leaves, its thread (it need not be `Send`).
+pub fn run_schedule_with<S, R: Send, I, F>(k: usize, schedule: &[u8], init: I, body: F) -> Result<Vec<Vec<R>>, String>
+where
+    I: Fn(u8) -> S + Sync,
+    F: Fn(u8, usize, &mut S) -> R + Sync,
+{
     let baton = Baton::new(schedule.to_vec());
     let mut results: Vec<Vec<R>> = Vec::new();
     let mut err = None;
@@ -97,11 +106,13 @@ where
         for tid in 0..k as u8 {
             let baton = baton.clone();
             let body = &body;
+            let init = &init;
             handles.push(s.spawn(move || {
                 let mut out = Vec::new();
                 let mut step = 0;
+                let mut state = init(tid);
                 while baton.acquire(tid) {
-                    let r = std::panic::catch_unwind(std::panic::AssertUnwindSafe(|| body(tid, step)));
+                    let r = std::panic::catch_unwind(std::panic::AssertUnwindSafe(|| body(tid, step, &mut state)));
                     match r {
                         Ok(v) => out.push(v),
                         Err(_) => {
